@@ -23,7 +23,7 @@ def universe_json(drive, kind, uname, size, seed):
 
 
 def write_mc(work, name, uni, emit, max_depth=0, ramp=False, switches=None, invariants=None, props=None, view=True,
-             extra_inv=None):
+             extra_inv=None, start_full=False):
     sw = dict(DEFAULT_SWITCHES)
     if switches:
         sw.update(switches)
@@ -41,7 +41,8 @@ def write_mc(work, name, uni, emit, max_depth=0, ramp=False, switches=None, inva
     prs = props if props is not None else ARTTREE_PROPS
     with open(os.path.join(work.specdir, mod + ".cfg"), "w") as f:
         f.write("CONSTANTS\n Keys <- MCKeys\n RangeBad <- MCRangeBad\n Family = \"%s\"\n" % uni["family"])
-        f.write(" EmitEdges = %s\n MaxDepth = %d\n Ramp = %s\n" % ("TRUE" if emit else "FALSE", max_depth, "TRUE" if ramp else "FALSE"))
+        f.write(" EmitEdges = %s\n MaxDepth = %d\n Ramp = %s\n StartFull = %s\n" % (
+            "TRUE" if emit else "FALSE", max_depth, "TRUE" if ramp else "FALSE", "TRUE" if start_full else "FALSE"))
         for k, v in sw.items():
             f.write(" %s = %s\n" % (k, v))
         f.write("INIT Init\nNEXT Next\n")
